@@ -358,6 +358,8 @@ row(props=["C06"], func=RL + "EnterCatchType", params=["s", "ctx"], kind="callar
     expr='call("strings.Split", GetText(q), ".")[0]', what="a caught type references the first segment of its name")
 row(props=["C01"], func=FL + "getMethodMapName", params=["method"], kind="depends", fields={"Name": "", "Position.StartLine": "", "Position.StartLinePosition": ""},
     what="two declarations never share an entry of the per-class method table: the key identifies a declaration by name and start position (line and column)")
+row(props=["C12"], func=API + "(JavaAPIListener).EnterAnnotation", params=["s", "ctx"], kind="callarg", callee=API + "addApiMethod", arg=0, total=2, index=1, each={"as": "pair"},
+    expr='call("strings.Trim", %s, "{}")' % PAIRTXT, what="method= names the verb in plain or in array form: method = RequestMethod.GET and method = {RequestMethod.GET}")
 
 json.dump({"e5": rows}, open(os.path.join(os.path.dirname(os.path.dirname(os.path.abspath(__file__))), "spec", "e5.json"), "w"), indent=1, ensure_ascii=False)
 print(len(rows), "rows")
